@@ -860,8 +860,68 @@ def gen_pag3():
         scenario("pag-%02d" % n, "pag", doc(css, "\n".join(body)), expect=exp)
 
 
+# ------------------------------------------------------------------ family geo-* (drawing paths and degenerate geometry)
+
+def gen_geo():
+    # every border style / radius / dashed / collapsed-table border / outline / decoration / background clip path
+    css = page_css(300, 220, 10) + BASE + (
+        ".b1 { border: 2px solid red } .b2 { border: 3px dashed green; border-radius: 5px } .b3 { border: 4px dotted blue; border-radius: 50% } .b4 { border: 6px double black }\n"
+        ".b5 { border: 5px groove gray } .b6 { border: 5px ridge gray } .b7 { border: 4px inset gray; border-radius: 3px 10px } .b8 { border: 4px outset gray }\n"
+        ".b9 { border-style: solid dashed dotted double; border-width: 1px 2px 3px 4px; border-color: red green blue black; border-radius: 8px / 4px }\n"
+        ".o { outline: 2px dashed red; outline-offset: 2px } .d { text-decoration: underline overline line-through; text-decoration-color: green; text-decoration-style: wavy }\n"
+        ".bg { background: linear-gradient(to right, red, blue) padding-box, radial-gradient(circle, yellow, green) border-box; border: 3px solid transparent; background-clip: content-box, border-box; padding: 2px }\n"
+        ".sh { box-shadow: 2px 2px 3px black; opacity: 0.5 } .ov { overflow: hidden; height: 14px; border-radius: 4px }\n"
+        "table.c { border-collapse: collapse } table.c td { border: 1px solid black; padding: 1px } table.c td.x { border: 3px dashed red } table.c td.y { border-style: hidden }\n"
+        "div { margin-bottom: 3px }\n")
+    W = words("w", 20)
+    body = "".join('<div class="b%d">%s</div>' % (i + 1, W[i]) for i in range(9))
+    body += '<div class=o>%s</div><div class=d>%s</div><div class=bg>%s</div><div class=sh>%s</div><div class=ov>%s</div>' % tuple(W[9:14])
+    body += '<table class=c><tr><td>%s</td><td class=x>%s</td></tr><tr><td class=y>%s</td><td>%s</td></tr></table>' % tuple(W[14:18]) + para(W[18:])
+    scenario("geo-01", "geo", doc(css, body), expect=dict(margin=True, page_w=300, page_h=220, sentinels=W, line_height=12))
+
+    # degenerate geometry: zero sizes, zero font size, zero scale, coincident gradient stops, huge radius, empty boxes
+    css = page_css(300, 220, 10) + BASE + (
+        ".z1 { width: 0; border: 2px dashed red; border-radius: 4px } .z2 { height: 0; width: 0; border: 0 solid red; border-radius: 10px; background: red } .z3 { font-size: 0 }\n"
+        ".z4 { transform: scale(0); transform-origin: 0 0 } .z5 { transform: scale(1, 0) rotate(30deg) } .z6 { width: 50px; height: 10px; background: linear-gradient(red 50%, blue 50%) }\n"
+        ".z7 { width: 50px; height: 10px; background: radial-gradient(circle 0px, red, blue) } .z8 { width: 50px; height: 10px; background: linear-gradient(90deg, red 10px, blue 10px, green 10px) }\n"
+        ".z9 { width: 20px; height: 20px; border-radius: 1000px; border: 1px solid black } .z10 { width: 40px; height: 0; border-top: 1px dotted black } .z11 { width: 40px; height: 10px; background: repeating-linear-gradient(red, blue 0px) }\n"
+        ".z12 { width: 40px; height: 10px; background: url(dot.png) 0 0 / 0 0 } .z13 { width: 40px; height: 10px; border: 3px dashed transparent; border-image: linear-gradient(red, blue) 1 } .z14 { letter-spacing: -10px; word-spacing: -10px }\n"
+        ".z15 { width: 40px; line-height: 0 } .z16 { padding: 0; margin: -5px 0; height: 0 } a.z17 { display: inline-block; width: 0; height: 0 } .z18 { transform: matrix(0, 0, 0, 0, 0, 0) }\n")
+    W = words("w", 22)
+    body = "".join('<div class="z%d">%s</div>' % (i + 1, W[i]) for i in range(16))
+    body += '<p><a class=z17 href="#t1" id=t0>%s</a> <a class=z4 href="#t0" id=t1>%s</a> <a class=z18 href="#t0">%s</a></p>' % tuple(W[16:19]) + para(W[19:])
+    scenario("geo-02", "geo", doc(css, body, "<title>Geo</title>"), files={"dot.png": (png(2, 2, (200, 0, 0)), dict(mime="image/png", kind="image"))},
+             expect=dict(margin=True, page_w=300, page_h=220, meta={"Title": "Geo"}, line_height=12))
+
+    # bookmark level sequences (level 2 first; 1,3,2; skipping), headings at the very top of pages, links split across pages
+    css = page_css(220, 150, 10) + BASE + "h1 { bookmark-level: 1 } h2 { bookmark-level: 2 } h3 { bookmark-level: 3 } h4 { bookmark-level: 5 }\n.top { break-before: page }\na { color: blue }\n"
+    body, flow, ids, links, bms = [], [], {}, [], []
+    wi = 1
+    seq = [(2, False), (1, False), (3, True), (2, False), (4, True), (1, True), (1, False), (3, False), (3, False), (2, True)]
+    for i, (lvl, top) in enumerate(seq):
+        hw = "h%03d" % (i + 1)
+        tag = {1: "h1", 2: "h2", 3: "h3", 4: "h4"}[lvl]
+        body.append('<%s id="b%d"%s>%s</%s>' % (tag, i, ' class=top' if top else "", hw, tag)); flow.append(hw)
+        ids["b%d" % i] = hw
+        bms.append(dict(level=5 if lvl == 4 else lvl, label=hw, word=hw))
+        ws = words("w", 26, wi); wi += 26; flow += ws
+        inner = list(ws)
+        tgt = "b%d" % ((i * 3 + 1) % len(seq))
+        # a link whose text spans many words, likely to be split across lines and pages
+        inner[10] = '<a href="#%s">%s' % (tgt, ws[10]); inner[22] = ws[22] + "</a>"
+        links.append(dict(word=ws[10], target=tgt)); links.append(dict(word=ws[22], target=tgt))
+        body.append("<p>%s</p>" % " ".join(inner))
+    head = ('<title> Spaced   title </title><meta name=author content="A One"><meta name=author content=""><meta name=author content="B Two"><meta name=keywords content="k1,k2 , k3,k1"><meta name=keywords content="k4">'
+            '<meta name=description content="first"><meta name=description content="second"><meta name=dcterms.created content="2020-01-02T03:04:05+01:00"><meta name=dcterms.modified content="2021-06">')
+    scenario("link-05", "link", doc(css, "\n".join(body), head),
+             expect=dict(flows={"main": flow}, margin=True, page_w=220, page_h=150, conserve=True, ids=ids, links=links, bookmarks=bms, line_height=12,
+                         meta={"Title": "Spaced title", "Authors": "A One\x1fB Two", "Keywords": "k1\x1fk2\x1fk3\x1fk4", "Description": "first",
+                               "DateCreation": "2020-01-02T02:04:05Z", "DateModification": "2021-06-01T00:00:00Z"}))
+
+
 def main():
     gen_pag()
+    gen_geo()
     gen_pag2()
     gen_pag3()
     gen_feat3()
